@@ -638,6 +638,10 @@ func (c *Compiler) ExpandModules() (err error) {
 		r := module.GetModule()
 		g.AddVertex(mn)
 		for _, i := range r.ChildrenByType(parse.NodeImport) {
+			if i.Name() == mn {
+				// tsort does not treat a self edge as a cycle
+				c.error(i, fmt.Errorf("module imports itself"))
+			}
 			g.AddEdge(mn, i.Name())
 		}
 	}
